@@ -70,6 +70,77 @@ pub fn vecdeque_drain_to(v: &mut std::collections::VecDeque<u8>, r: std::ops::Ra
     ensures final(v)@ == old(v)@.subrange(r.end as int, old(v)@.len() as int),
 { v.drain(r); }
 
+/// R17: stand-in for `std::io::BufWriter<std::fs::File>` (only what the repo uses).  The wrapper holds the
+/// real std type and every method calls the std method of the same name; the contracts are ASSUMED and are
+/// phrased over three ghost quantities of the handle:
+///   content()  the logical bytes between the start of the file and the write cursor,
+///   flushed()  how long a prefix of content() has been handed to the OS (BufWriter buffer emptied),
+///   synced()   how long a prefix of content() is on stable storage (fdatasync returned).
+/// After an I/O error the logical cursor is modelled as advanced (the caller's own `offset` is advanced before
+/// the call); what is on disk after a failed call is not modelled, only monotonicity of flushed()/synced().
+#[verifier::external_body]
+pub struct BufFile { inner: std::io::BufWriter<std::fs::File> }
+
+impl BufFile {
+    pub uninterp spec fn content(&self) -> Seq<u8>;
+    pub uninterp spec fn flushed(&self) -> int;
+    pub uninterp spec fn synced(&self) -> int;
+
+    /// `BufWriter::with_capacity(cap, file)`: nothing buffered; what precedes the cursor is what the file holds
+    #[verifier::external_body]
+    pub fn with_capacity(cap: usize, file: std::fs::File) -> (r: BufFile)
+        ensures
+            r.content().len() == crate::vfs::file_pos(&file),
+            r.flushed() == r.content().len(),
+            r.synced() == r.content().len(),
+    { BufFile { inner: std::io::BufWriter::with_capacity(cap, file) } }
+
+    /// `Write::write_all`
+    #[verifier::external_body]
+    pub fn write_all(&mut self, buf: &[u8]) -> (r: std::io::Result<()>)
+        ensures
+            r is Ok ==> final(self).content() == old(self).content() + buf@,
+            final(self).content().len() == old(self).content().len() + buf@.len(),
+            final(self).flushed() >= old(self).flushed(),
+            final(self).synced() == old(self).synced(),
+    { use std::io::Write; self.inner.write_all(buf) }
+
+    /// `Write::flush`: empties the BufWriter's buffer into the OS
+    #[verifier::external_body]
+    pub fn flush(&mut self) -> (r: std::io::Result<()>)
+        ensures
+            final(self).content() == old(self).content(),
+            final(self).flushed() >= old(self).flushed(),
+            final(self).synced() == old(self).synced(),
+            r is Ok ==> final(self).flushed() == final(self).content().len(),
+    { use std::io::Write; self.inner.flush() }
+
+    /// `self.get_ref().sync_data()` (fdatasync): what the OS has been handed is on stable storage when it returns Ok
+    #[verifier::external_body]
+    pub fn sync_data(&mut self) -> (r: std::io::Result<()>)
+        ensures
+            final(self).content() == old(self).content(),
+            final(self).flushed() == old(self).flushed(),
+            final(self).synced() >= old(self).synced(),
+            r is Ok ==> final(self).synced() == final(self).flushed(),
+    { self.inner.get_ref().sync_data() }
+
+    /// `Seek::seek`, modelled for forward relative seeks only (the one use in the repo): the bytes skipped are
+    /// the ones the file already holds; a handle with nothing pending stays so
+    #[verifier::external_body]
+    pub fn seek(&mut self, pos: std::io::SeekFrom) -> (r: std::io::Result<u64>)
+        ensures
+            r is Ok ==> (match pos {
+                std::io::SeekFrom::Current(n) => n >= 0 ==> {
+                    &&& final(self).content().len() == old(self).content().len() + n
+                    &&& final(self).flushed() == (if old(self).flushed() == old(self).content().len() { final(self).content().len() as int } else { old(self).flushed() })
+                    &&& final(self).synced() == (if old(self).synced() == old(self).content().len() { final(self).content().len() as int } else { old(self).synced() })
+                },
+                _ => true,
+            }),
+    { use std::io::Seek; self.inner.seek(pos) }
+}
+
 } // verus!
 
 /// R9: stand-in for the external crate `crc32fast` (only what the repo uses).  Assumed contract: a Hasher
